@@ -23,6 +23,7 @@ class BaseMonitor:
         self.linked = linked            # predicate(e, cq) -> True when a rule boundary is to be inlined (linked mode)
         self.record_events = False
         self.hooks_opaque = False
+        self.distinguish_empty = False
 
     # ---- generic hooks ----------------------------------------------------------------
     def roots(self, st): return []
@@ -138,12 +139,14 @@ class BaseMonitor:
                 return None
             if self.linked is not None and fn is not None and fn.get('body') is not None and self.linked(e, cq):
                 return None
+            self.boundary_args = av
             return self.oracle(ex, e, cq, b[0], b[1], st, fr)
         if cq in BUMPS:
             return self.bump(ex, e, cq, av, st, fr)
         if self.db.get(cu) is None:
             inp = self.user_rule_call(ex, e, cq, av, st)
             if inp is not None:
+                self.boundary_args = av
                 return self.oracle(ex, e, cq, inp, REQ, st, fr)
         if self.record_events and cn in HOOKS and e.get('cc') and e.get('static') and av:
             vals = [ex.argval(a, st) for a in av]
@@ -192,16 +195,19 @@ class BaseMonitor:
             if main and p == 'D':
                 st.viol.append(('R3', 'rule boundary call while the cursor is DIRTY (after an un-rewound failed attempt)', e.get('loc')))
             label = self.label(e, cq)
+            binfo = self.on_boundary(ex, e, cq, inp, mode, st, fr)
             def ev(s, what):
-                if self.record_events: s.events.append('rule:' + what)
+                if binfo is not None: s.events.append(binfo + (what,))
+                elif self.record_events: s.events.append('rule:' + what)
             # success consuming
             s1 = st.copy(); s1.heap[inp.addr]['m_current'] = Cur(self.adv(p, 'pos')); s1.trace.append((label, 'succ+')); ev(s1, 'T')
             self.after_oracle(ex, s1, inp, 'succ+')
             yield True, s1
-            # success empty
-            s2 = st.copy(); s2.trace.append((label, 'succ0')); ev(s2, 'T')
-            self.after_oracle(ex, s2, inp, 'succ0')
-            yield True, s2
+            # success empty (identical to the consuming success once the cursor is already ADVANCED / DIRTY)
+            if self.adv(p, 'pos') != p or self.distinguish_empty:
+                s2 = st.copy(); s2.trace.append((label, 'succ0')); ev(s2, 'T')
+                self.after_oracle(ex, s2, inp, 'succ0')
+                yield True, s2
             # failure (unless the callee's own analysis showed it never returns false)
             if e.get('cu') not in self.never_false:
                 s3 = st.copy(); s3.trace.append((label, 'fail/' + ('req' if mode == REQ else 'opt'))); ev(s3, 'F')
@@ -215,6 +221,7 @@ class BaseMonitor:
         return g()
 
     def after_oracle(self, ex, st, inp, what): pass
+    def on_boundary(self, ex, e, cq, inp, mode, st, fr): return None
     def on_hook(self, ex, e, cn, vals, st, fr): pass
 
     def label(self, e, cq):
@@ -260,7 +267,7 @@ def new_input(st, main=True, t='input'):
 
 
 def bind_params(ex, fn, f, st, inp):
-    bound = False
+    bound = False; nstate = 0
     for p in fn['params']:
         t = p['t']
         if not bound and is_input_type(t):
@@ -269,6 +276,6 @@ def bind_params(ex, fn, f, st, inp):
             v = st.sym(0, None)
             a = st.alloc(['cell', v]); f.env[p['id']] = ('refto', ('cell', a))
         elif t.endswith('&'):
-            f.env[p['id']] = Obj(st.alloc({'__type': t, '__state': True}))
+            f.env[p['id']] = Obj(st.alloc({'__type': t, '__state': True, '__idx': nstate})); nstate += 1
         else:
             f.env[p['id']] = st.sym(0, None) if ('unsigned' in t or 'size_t' in t) else Unknown('param')
